@@ -930,7 +930,9 @@ func (p *prover) obligationsOf(scope func(ssa.Value) bool) []boundsObl {
 				f := idx.add(n, -1)
 				f.c++
 				out = append(out, boundsObl{in, "index < len", f})
-				out = append(out, boundsObl{in, "index >= 0", newLin(0).add(idx, -1)})
+				if !isUnsigned(x.Index.Type()) { // an index of unsigned type cannot be negative
+					out = append(out, boundsObl{in, "index >= 0", newLin(0).add(idx, -1)})
+				}
 			case *ssa.Index:
 				if !scope(x.X) {
 					continue
@@ -940,7 +942,9 @@ func (p *prover) obligationsOf(scope func(ssa.Value) bool) []boundsObl {
 				f := idx.add(n, -1)
 				f.c++
 				out = append(out, boundsObl{in, "index < len", f})
-				out = append(out, boundsObl{in, "index >= 0", newLin(0).add(idx, -1)})
+				if !isUnsigned(x.Index.Type()) { // an index of unsigned type cannot be negative
+					out = append(out, boundsObl{in, "index >= 0", newLin(0).add(idx, -1)})
+				}
 			case *ssa.Call:
 				n := calleeName(&x.Call)
 				need := int64(0)
